@@ -76,7 +76,7 @@ META['C36'] = dict(
     functions=['FortranPythonTransformation.transform_subroutine', 'pygen / PyCodegen / PyCodeMapper', 'shift_to_zero_indexing',
                'replace_intrinsics', 'convert_to_lower_case'],
     bounds=dict(COMMON_BOUNDS, outside='with_dace / invert_indices variants, derived-type arguments, real32 rounding (reals are compared '
-                'as exact values, replay tolerance 1e-6), integer overflow of np.int32 (|v| <= 6), exponents outside 0..3, '
+                'as exact values, replay tolerance 1e-6), integer overflow of np.int32 (|v| <= 6), exponents outside -3..3, '
                 'SELECT CASE / WHERE / EXIT (no pygen handler: not in the transpilable subset)'),
     assumptions=COMMON_ASSUME + ['executions in which the original reads a variable before defining it are excluded',
                                  'numpy semantics as modelled in vlib/fsmt/pysem.py; every counterexample is confirmed by CPython+numpy'])
